@@ -56,6 +56,20 @@ Argument forms (the documented type is FloatArray = float | ndarray)
   Found by this: seeded change C08-3 (closed-form denominator built with `denominator = base; denominator *=
   base` - exact for floats, squares the shared buffer for ndarrays, l = 7 closed-form cells only).
 
+Configuration dimension "numba disabled" (documented switch `[numba] use_numba = false`)
+  One persistent worker subprocess per shard (fresh interpreter, `vlib.env.setup()`, then
+  `TidalPy.config['numba']['use_numba'] = False` before any TidalPy.tides module is imported; the worker
+  proves the fallback is active - `performance.numba.use_numba` is False and tables/helpers are plain
+  Python functions - or the run is a harness error) evaluates, with NO compilation, every table route and
+  every lookup helper (all l, N; folded into the enumerated `table` / `lookup_py` cases, label `nonumba`) on
+  floats (0, 0.3, 0.85), arrays of length 1 and 5 and a 0-d array, and Hypothesis-generated
+  `kind: nonumba` cases (path dispatch | lookup, any l, N, form, e).  The values travel back as JSON lines
+  over a private pipe pair and are judged in the parent by the same exact oracle / compiled-value
+  tolerance / key-set rule as every other route (`where: nonumba_*`); exceptions raised by a call are
+  failures; the caller's array must be unchanged.  The unchanged tree passes completely in this
+  configuration.  Found by this: seeded change C08-5 (bare `@njit` on a one-argument helper: identity
+  function when TidalPy's pure-Python njit fallback is active).
+
 Oracles
   exact      `oracles.hansen`: X^{n,m}_k from the eccentric-anomaly integral expanded as a Laurent
              polynomial in exp(iE) with power-series-in-e rational coefficients, order 24.  For the
@@ -138,7 +152,8 @@ LEVEL_TEXT = ('Every coefficient of every published table cell (61 tables, ~5 40
 LEVEL_NOTE = ('Trusts: the independent Hansen oracle (self-tested against textbook series, closed forms and mpmath quadrature on '
               'every run), python fractions, that `.py_func` is the source numba compiles, and "all orders" for closed-form '
               'cells means through e^40.  The ndarray argument route of every table/helper is exercised on the interpreted '
-              'twin (3 shapes) in every tier; the COMPILED code is exercised for l <= 3 (all N) and l <= 7 (N <= 4) in the '
+              'twin (3 shapes) and, with numba disabled through the documented config switch, in a worker subprocess, in '
+              'every tier; the COMPILED code is exercised for l <= 3 (all N) and l <= 7 (N <= 4) in the '
               'quick tier and for all l, N in the thorough tier.')
 CASES = {'quick': 16000, 'thorough': 400000}
 SHARDS = {'quick': 16, 'thorough': 16}
@@ -565,6 +580,7 @@ def _eval_table(case):
         if first:
             aliased = al
         _array_route_py(c, f, N, lambda out, n, _l=l: {_l: _to_plain(out, n)}, where)
+        _nonumba_route(c, where, N, l, NN_CALLS, 'nonumba_' + where)
     _count_labels(c, counts, aliased, 'nt')
     if ncell_numeric:
         c.label('nt_numeric_cells=%d' % ncell_numeric)
@@ -601,6 +617,7 @@ def _eval_lookup_py(case):
                for p, row in raw[l].items()}
         _check_table(c, l, N, res, 'lookup_py', counts)
     _array_route_py(c, helper, N, lambda out, n: {int(k): _to_plain(out[k], n) for k in out}, 'lookup_py')
+    _nonumba_route(c, 'lookup', N, lmax, NN_CALLS, 'nonumba_lookup')
     _count_labels(c, counts, 0, 'nl')
     c.nontrivial = counts['coef'] > 0
     return c.result()
@@ -882,6 +899,210 @@ def _eval_compiled(case):
 
 
 # ---------------------------------------------------------------------------------------------------
+# configuration dimension "numba disabled" (documented switch [numba] use_numba = false)
+# ---------------------------------------------------------------------------------------------------
+# A worker subprocess (fresh interpreter, vlib.env.setup(), `TidalPy.config['numba']['use_numba'] = False`
+# BEFORE any TidalPy.tides module is imported) evaluates tables / helpers on float, ndarray and 0-d
+# arguments and sends the values back; the parent judges them with the same oracle and tolerance as every
+# other route.  No numba compilation happens there.  Requests/replies are JSON lines over a private pipe
+# pair (not stdin: env.setup() points fd 0 at /dev/null).
+
+_NN = {}
+
+
+def _nonumba_worker_main(rfd, wfd):
+    import json
+    import traceback
+    import numpy as np
+    import TidalPy
+    TidalPy.config['numba']['use_numba'] = False
+    import TidalPy.utilities.performance.numba as perf
+    import importlib
+    ef = importlib.import_module('TidalPy.tides.eccentricity_funcs')
+    mh = importlib.import_module('TidalPy.tides.modes.mode_calc_helper')
+    order = {l: importlib.import_module('TidalPy.tides.eccentricity_funcs.orderl%d' % l) for l in LS}
+    inp = os.fdopen(rfd, 'r')
+    out = os.fdopen(wfd, 'w')
+
+    def plain(f):
+        return isinstance(f, types.FunctionType) and not hasattr(f, 'py_func')
+
+    def send(obj):
+        out.write(json.dumps(obj) + '\n')
+        out.flush()
+
+    send({'ready': True, 'use_numba': bool(perf.use_numba), 'njit_is_numba': getattr(perf.njit, '__module__', '') != perf.__name__,
+          'sample_plain': plain(ef.eccentricity_truncations[2][2]) and plain(mh.eccentricity_functions_lookup[2][2])})
+
+    def flat(tab, n):
+        cells = []
+        for p in tab:
+            for q in tab[p]:
+                v = tab[p][q]
+                a = np.asarray(v, dtype=np.float64)
+                cells.append([int(p), int(q), [float(x) for x in a.ravel()], type(v).__name__])
+        return cells
+
+    for line in inp:
+        req = json.loads(line)
+        if req.get('quit'):
+            break
+        rep = {'results': []}
+        try:
+            N, l, route = req['N'], req['l'], req['route']
+            if route == 'truncations':
+                fn = ef.eccentricity_truncations[N][l]
+            elif route == 'by_name':
+                fn = getattr(order[l], 'eccentricity_funcs_trunc%d' % N, None)
+            elif route == 'package_alias':
+                fn = getattr(ef, 'eccentricity_funcs_l%d_trunc%d' % (l, N), None)
+            else:
+                fn = mh.eccentricity_functions_lookup[N][l]
+            if fn is None:
+                rep['absent'] = True
+            else:
+                rep['plain'] = plain(fn)
+                for call in req['calls']:
+                    es = call['e']
+                    arg = float(es[0]) if call['form'] == 'scalar' else \
+                        np.asarray(es[0] if call['form'] == 'array0d' else es, dtype=np.float64)
+                    keep = arg.tobytes() if hasattr(arg, 'tobytes') else None
+                    try:
+                        with np.errstate(all='ignore'):
+                            o = fn(arg)
+                        if route == 'lookup':
+                            vals = {str(int(k)): flat(o[k], len(es)) for k in o}
+                        else:
+                            vals = {str(l): flat(o, len(es))}
+                        rep['results'].append({'values': vals, 'modified': keep is not None and arg.tobytes() != keep})
+                    except Exception as e:  # noqa - reported to the parent as a failure of the call
+                        rep['results'].append({'error': {'type': type(e).__name__, 'msg': str(e)[:300],
+                                                         'tb': traceback.format_exc()[-1200:]}})
+        except Exception as e:  # noqa
+            rep['error'] = {'type': type(e).__name__, 'msg': str(e)[:300], 'tb': traceback.format_exc()[-1200:]}
+        send(rep)
+
+
+def _nonumba_worker():
+    import atexit
+    import json
+    from vlib import env
+    w = _NN.get('w')
+    if w is not None and w['proc'].poll() is None:
+        return w
+    p2c_r, p2c_w = os.pipe()
+    c2p_r, c2p_w = os.pipe()
+    code = ('import sys; sys.path.insert(0, %r); from vlib import env; env.setup(); '
+            'from props import c08_eccentricity as m; m._nonumba_worker_main(int(sys.argv[1]), int(sys.argv[2]))' % env.VERIF)
+    childenv = dict(os.environ, VERIF_CACHE_ROLE='c08-nonumba')
+    import tempfile
+    errf = tempfile.TemporaryFile()
+    proc = subprocess.Popen([env.PY, '-c', code, str(p2c_r), str(c2p_w)], cwd=env.VERIF, env=childenv,
+                            stdin=subprocess.DEVNULL, stdout=subprocess.DEVNULL, stderr=errf,
+                            pass_fds=(p2c_r, c2p_w))
+    os.close(p2c_r)
+    os.close(c2p_w)
+    w = {'proc': proc, 'to': os.fdopen(p2c_w, 'w'), 'from': os.fdopen(c2p_r, 'r')}
+    line = w['from'].readline()
+    if not line:
+        proc.wait()
+        errf.seek(0)
+        err = errf.read().decode(errors='replace')[-1500:]
+        raise HarnessError('numba-disabled worker did not start:\n%s' % err)
+    hello = json.loads(line)
+    if hello.get('use_numba') or not hello.get('sample_plain'):
+        raise HarnessError('numba-disabled configuration is not active in the worker: %r' % (hello,))
+    _NN['w'] = w
+    atexit.register(shard_teardown)
+    return w
+
+
+def shard_teardown():
+    w = _NN.pop('w', None)
+    if w is not None:
+        try:
+            w['to'].write('{"quit": true}\n')
+            w['to'].flush()
+            w['proc'].wait(timeout=5)
+        except Exception:  # noqa
+            w['proc'].kill()
+
+
+def _nonumba_request(route, N, l, calls):
+    import json
+    for attempt in range(2):
+        w = _nonumba_worker()
+        try:
+            w['to'].write(json.dumps({'route': route, 'N': N, 'l': l, 'calls': calls}) + '\n')
+            w['to'].flush()
+            line = w['from'].readline()
+            if line:
+                return json.loads(line)
+        except (BrokenPipeError, OSError):
+            pass
+        _NN.pop('w', None)
+        try:
+            w['proc'].kill()
+        except Exception:  # noqa
+            pass
+    raise HarnessError('numba-disabled worker died twice on request %s N=%s l=%s' % (route, N, l))
+
+
+NN_CALLS = ([{'form': 'scalar', 'e': [x]} for x in (0.0, 0.3, 0.85)]
+            + [{'form': 'array', 'e': [0.4]}, {'form': 'array', 'e': [0.0, 0.05, 0.3, 0.6, 0.85]}, {'form': 'array0d', 'e': [0.25]}])
+
+
+def _nonumba_route(c, route, N, l, calls, where):
+    """Values of one table/helper with numba disabled, judged by the same oracle/tolerance as every route.
+    Returns False when the route does not exist (by-name functions)."""
+    rep = _nonumba_request(route, N, l, calls)
+    if rep.get('absent'):
+        return False
+    sig = {'where': where, 'l': l}
+    if rep.get('error'):
+        c.fail({'kind': 'exception', 'type': rep['error']['type'], 'where': where + ' (numba disabled) lookup of the function'},
+               rep['error']['tb'])
+        return True
+    if not rep.get('plain'):
+        c.label('nonumba:still_a_dispatcher')
+    c.label('nonumba')
+    for call, res in zip(calls, rep['results']):
+        if 'error' in res:
+            c.fail({'kind': 'exception', 'type': res['error']['type'], 'where': where + ' (numba disabled)'},
+                   'route=%s N=%d l=%d form=%s e=%r\n%s' % (route, N, l, call['form'], call['e'], res['error']['tb']))
+            continue
+        es = [float(x) for x in call['e']]
+        if call['form'] != 'array':
+            es = es[:1]
+        c.check(not res['modified'], dict(sig, clause='input_array_modified'),
+                'N=%d %s: the caller\'s %s eccentricity array was modified (numba disabled)' % (N, route, call['form']))
+        levels = sorted(int(k) for k in res['values'])
+        if route == 'lookup':
+            c.check(levels == list(range(2, l + 1)), {'clause': 'lookup_levels', 'where': where},
+                    'lookup[%d][%d] (numba disabled) returned levels %r' % (N, l, levels))
+        for ll in levels:
+            if not published(ll, N):
+                continue
+            got = {(p, q): vals for p, q, vals, _t in res['values'][str(ll)]}
+            _compare_level(c, ll, N, got, es, where)
+    return True
+
+
+def _eval_nonumba(case):
+    N, l = int(case['N']), int(case['l'])
+    path = case['path']
+    es = [float(x) for x in case['e']]
+    if case['form'] != 'array':
+        es = es[:1]
+    c = Collector(labels=['nonumba:' + path, 'l:%d' % l, 'N:%d' % N, case['form']], nontrivial=any(x > 0.0 for x in es))
+    emax = max(es)
+    c.label('e:zero' if emax == 0.0 else 'e:small' if emax < 0.1 else 'e:large' if emax > 0.7 else 'e:mid')
+    _nonumba_route(c, 'truncations' if path == 'dispatch' else 'lookup', N, l, [{'form': case['form'], 'e': es}],
+                   'nonumba_' + path)
+    return c.result()
+
+
+# ---------------------------------------------------------------------------------------------------
 # module interface
 # ---------------------------------------------------------------------------------------------------
 
@@ -891,6 +1112,8 @@ def evaluate(case):
         return _eval_table(case)
     if kind == 'lookup_py':
         return _eval_lookup_py(case)
+    if kind == 'nonumba':
+        return _eval_nonumba(case)
     return _eval_compiled(case)
 
 
@@ -900,7 +1123,7 @@ def in_domain(case):
             return published(case['l'], case['N'])
         if case['kind'] == 'lookup_py':
             return case['N'] in NS and case['lmax'] in LS and (case['N'] != 22 or case['lmax'] == 2)
-        if case['kind'] not in ('compiled', 'interp') or case['path'] not in ('dispatch', 'lookup') \
+        if case['kind'] not in ('compiled', 'interp', 'nonumba') or case['path'] not in ('dispatch', 'lookup') \
                 or case['form'] not in ('scalar', 'array', 'array0d'):
             return False
         if not published(case['l'], case['N']):
@@ -914,7 +1137,8 @@ def in_domain(case):
 # two compiled-path witnesses (also make the evidence samples show what a generated case looks like)
 WITNESSES = [{'kind': 'compiled', 'path': 'dispatch', 'N': 4, 'l': 2, 'form': 'scalar', 'e': [0.3]},
              {'kind': 'compiled', 'path': 'lookup', 'N': 4, 'l': 3, 'form': 'array', 'e': [0.0, 0.05, 0.6]},
-             {'kind': 'interp', 'path': 'lookup', 'N': 20, 'l': 7, 'form': 'array', 'e': [0.0, 0.2, 0.85]}]
+             {'kind': 'interp', 'path': 'lookup', 'N': 20, 'l': 7, 'form': 'array', 'e': [0.0, 0.2, 0.85]},
+             {'kind': 'nonumba', 'path': 'lookup', 'N': 10, 'l': 6, 'form': 'array', 'e': [0.0, 0.3, 0.7]}]
 
 
 def fixed_cases(tier):
@@ -999,12 +1223,14 @@ def strategy(tier):
                                       'N': st.just(N), 'l': st.sampled_from([2] if N == 22 else list(LS)),
                                       'form': st.just(form), 'e': e_list(form)})
     compiled = st.sampled_from(units).flatmap(for_unit)
-    interpreted = st.tuples(st.sampled_from(NS), st.sampled_from(['scalar', 'array', 'array', 'array0d'])).flatmap(interp)
-    return st.one_of(compiled, compiled, compiled, interpreted)
+    nf = st.tuples(st.sampled_from(NS), st.sampled_from(['scalar', 'array', 'array', 'array0d']))
+    interpreted = nf.flatmap(interp)
+    nonumba = nf.flatmap(interp).map(lambda d: dict(d, kind='nonumba'))
+    return st.one_of(compiled, compiled, compiled, compiled, interpreted, nonumba)
 
 
 def required_labels(tier):
-    req = ['table', 'lookup_py', 'array_py', 'compiled:dispatch', 'compiled:lookup', 'interp:dispatch', 'interp:lookup',
+    req = ['table', 'lookup_py', 'array_py', 'nonumba', 'nonumba:dispatch', 'nonumba:lookup', 'compiled:dispatch', 'compiled:lookup', 'interp:dispatch', 'interp:lookup',
            'scalar', 'array', 'array0d', 'e:zero', 'e:small', 'e:mid',
            'e:large', 'cell:closed', 'cell:poly', 'cell:absent', 'cell:aliased']
     req += ['l:%d' % l for l in LS] + ['N:%d' % N for N in NS] + ['lmax:%d' % l for l in LS]
